@@ -24,7 +24,7 @@ import vspec    # noqa: E402
 HERE = os.path.dirname(os.path.abspath(__file__))
 VERIF = os.path.dirname(HERE)
 
-STRUCTURAL = ('pub enum Label', 'pub enum LabelType', 'pub enum PktType')
+STRUCTURAL_TYPES = ('label::Label', 'label::LabelType', 'pkt_type::PktType')
 
 
 class AnchorLost(Exception):
@@ -89,17 +89,9 @@ def rewrite(src, relpath, log):
         end = s.index('];', s.index('exec const CRC_TAB'))
         s = s[:end] + '] }' + s[end + 2:]
         log.append({'rule': 'R7', 'file': relpath, 'line': s.count('\n', 0, end) + 1, 'before': '];', 'after': '] }'})
-    # R8  Structural derive
+    # R8  (no source change) derived == on Label / LabelType / PktType is structural: stated by `unsafe impl Structural` items
+    #     appended to vshim.rs (see annotate()); the derive lines stay as they are
     lines = s.split('\n')
-    for k, l in enumerate(lines):
-        if l.startswith('#[derive(') and 'PartialEq' in l:
-            j = k + 1
-            while j < len(lines) and (lines[j].startswith('///') or lines[j].startswith('#[') or lines[j].strip() == ''):
-                j += 1
-            if j < len(lines) and any(lines[j].startswith(x) for x in STRUCTURAL):
-                new = l.replace(')]', ', Structural)]', 1)
-                log.append({'rule': 'R8', 'file': relpath, 'line': k + 1, 'before': l, 'after': new})
-                lines[k] = new
     s = '\n'.join(lines)
     assert s.count('\n') == src.count('\n')
     return s
@@ -498,7 +490,10 @@ def annotate(repo_src, out_dir, spec_paths, vshim_path, ghost_mods):
         p = os.path.join(out_dir, 'src', rel)
         os.makedirs(os.path.dirname(p), exist_ok=True)
         open(p, 'w').write(text)
-    open(os.path.join(out_dir, 'src', 'vshim.rs'), 'w').write(open(vshim_path).read())
+    structural = ''.join('unsafe impl vstd::prelude::Structural for crate::%s {}\n' % t for t in STRUCTURAL_TYPES)
+    open(os.path.join(out_dir, 'src', 'vshim.rs'), 'w').write(open(vshim_path).read() + '\n// R8 / assumption A4: derive(PartialEq) on these enums is structural equality\n' + structural)
+    for t in STRUCTURAL_TYPES:
+        log.append({'rule': 'R8', 'file': 'vshim.rs', 'line': 0, 'before': '(none)', 'after': 'unsafe impl Structural for crate::%s {}' % t})
     for g, path in ghost_mods.items():
         txt = open(path).read()
         for t in spec.modules.get(g, []):
